@@ -97,7 +97,7 @@ func c18Loop(out *emit.Out, scenario string, in c18Input) {
 	p := tk.GetPKI()
 	sigK := &tk.CountKey{Inner: p.SrvSig.Key}
 	encK := &tk.CountKey{Inner: p.SrvEnc.Key}
-	scfg := tk.BuildDTLCP(tk.EPConfig{Ident: "srv", CookieSecret: in.Secret, Suites: []uint16{in.Suite}}, nil)
+	scfg := tk.BuildDTLCP(tk.EPConfig{Ident: "srv", CookieSecret: in.Secret, Suites: []uint16{in.Suite}, RetransMs: 20, MaxRetransMs: 40}, nil)
 	scfg.Certificates[0].PrivateKey = sigK
 	scfg.Certificates[1].PrivateKey = encK
 	dp := tk.NewDPair(&dtlcp.Config{}, scfg)
@@ -147,8 +147,10 @@ func c18Loop(out *emit.Out, scenario string, in c18Input) {
 			hellosCoq = append(hellosCoq, coqHello(h, cookie))
 			e.WriteTo(d, dp.Net.Addr(1))
 			r := resp{ReqSize: len(d)}
-			for {
-				e.SetReadDeadline(time.Now().Add(10 * time.Millisecond))
+			// everything the server sends in answer to this hello, including what its timers may add
+			// during 200 ms of silence (the server's retransmission timeouts are 20 / 40 ms)
+			for r.N < 50 {
+				e.SetReadDeadline(time.Now().Add(200 * time.Millisecond))
 				n, _, err := e.ReadFrom(buf)
 				if err != nil {
 					break
